@@ -19,7 +19,8 @@ import time
 
 ROOT = os.path.dirname(os.path.dirname(os.path.abspath(__file__)))
 SPEC = os.path.join(ROOT, "spec")
-HARNESS = os.path.join(ROOT, "harness")
+HARNESS = os.environ.get("VERIF_HARNESS_DIR") or os.path.join(ROOT, "harness")
+WORK_SUFFIX = os.environ.get("VERIF_WORK_SUFFIX", "")
 JAR = "/opt/veriftools/tla/tla2tools.jar:/opt/veriftools/tla/CommunityModules-deps.jar"
 
 
@@ -293,10 +294,10 @@ class Check:
         except ValueError:
             self.seed = 1
         self.t0 = time.time()
-        self.work = os.path.join(ROOT, "work", pid)
+        self.work = os.path.join(ROOT, "work", pid + WORK_SUFFIX)
         shutil.rmtree(self.work, ignore_errors=True)
         os.makedirs(self.work, exist_ok=True)
-        self.replay_dir = os.path.join(ROOT, "replays", pid)
+        self.replay_dir = os.path.join(ROOT, "replays", pid + WORK_SUFFIX)
         shutil.rmtree(self.replay_dir, ignore_errors=True)
         self.violations = []
         self.known_seen = {}
@@ -387,7 +388,7 @@ class Check:
             raise ToolError("vacuous run: evaluations=%s distinct_nontrivial=%s" %
                             (self.cov["evaluations"], self.cov["distinct_nontrivial"]))
         os.makedirs(os.path.join(ROOT, "evidence"), exist_ok=True)
-        with open(os.path.join(ROOT, "evidence", self.pid + ".json"), "w") as f:
+        with open(os.path.join(ROOT, "evidence" if not WORK_SUFFIX else "work", self.pid + WORK_SUFFIX + ".json"), "w") as f:
             json.dump(ev, f, indent=1)
         print("%s tier=%s evaluations=%d distinct=%d states=%d violations=%d known=%s wall=%.1fs" %
               (self.pid, self.tier, self.cov["evaluations"], self.cov["distinct_nontrivial"], self.cov["states"],
